@@ -51,7 +51,8 @@ def gen_ops(rng, tier):
     for i in range(1200 if big else 220):
         w = rng.choice([1, 2, 7, 8, 9, 15, 16, 17, 23, 31, 32, 33, 40, 47, 48, 64, 65])
         h = rng.choice([1, 2, 7, 8, 9, 15, 16, 17, 23, 31, 32, 33, 40, 47, 48, 64, 65])
-        ss = rng.randrange(7)
+        # 100 / 101: 4:2:2 / 4:4:0 written with doubled sampling factors (libjpeg API)
+        ss = rng.choice([0, 1, 2, 3, 4, 5, 6, 0, 1, 2, 4, 100, 101])
         sfi = rng.randrange(16) if rng.random() < .75 else 8
         pf = rng.choice([0, 1, 2, 3, 4, 5, 7, 8, 9, 10, 6])
         ops.append("yuvcontent %d %d %d %d %d %d %d %d" % (w, h, ss, sfi, pf, rng.randrange(5), rng.choice([1, 2, 4, 8, 16, 32]), rng.randrange(1 << 30)))
